@@ -2,7 +2,7 @@
 from lib import fw
 from checks import _cl
 
-MODULES = ["SunriseVerif.Props.C04", "SunriseVerif.Props.C04Interval", "SunriseVerif.Props.C04Refine", "SunriseVerif.Props.C04RefineLoop", "SunriseVerif.Props.C04Store", "SunriseVerif.Props.C04Grid"]
+MODULES = ["SunriseVerif.Props.C04", "SunriseVerif.Props.C04Interval", "SunriseVerif.Props.C04Refine", "SunriseVerif.Props.C04RefineLoop", "SunriseVerif.Props.C04Store", "SunriseVerif.Props.C04Grid", "SunriseVerif.Props.C04IntervalW"]
 
 
 def run(ctx):
